@@ -160,7 +160,7 @@ class ContentPart(Part):
                 "content": _contents(),
                 "kind": st.sampled_from(_KINDS),
                 "tagnum": st.sampled_from([0, 3, 30, 31, 200]),
-                "lenk": st.sampled_from([0, 0, 0, 1, 2, 4]),
+                "lenk": st.sampled_from([0, 0, 0, 1, 2, 4, 9, 126]),
                 "tail": st.binary(max_size=3),
             }
         )
@@ -285,7 +285,8 @@ class LengthPart(Part):
                 "mode": st.just("declared"),
                 "n": st.one_of(st.sampled_from([0, 1, 127, 128, 255, 256, 65535, 65536, 2**24, 2**31 - 1, 2**32, 2**56]),
                                st.integers(0, 2**64 - 1)),
-                "k": st.integers(1, 8),
+                # X.690 8.1.3.5: up to 126 length octets (0xFF is reserved); leading zero octets are allowed
+                "k": st.one_of(st.integers(1, 8), st.integers(1, 8), st.sampled_from([9, 10, 12, 16, 17, 33, 64, 126])),
             }
         )
         return st.one_of(written, declared)
@@ -522,7 +523,7 @@ class SiblingsPart(Part):
     examples = {QUICK: 300, THOROUGH: 3000}
 
     def strategy(self, tier: str) -> t.Any:
-        item = st.tuples(_tagspec(), st.one_of(st.binary(max_size=8), gens.sized_octets([0, 127, 128, 255, 256, 300])), st.sampled_from([0, 0, 1, 2, 4, 8]))
+        item = st.tuples(_tagspec(), st.one_of(st.binary(max_size=8), gens.sized_octets([0, 127, 128, 255, 256, 300])), st.sampled_from([0, 0, 1, 2, 4, 8, 9, 17, 126]))
         return st.lists(item, min_size=1, max_size=8)
 
     def check(self, case: t.Any, ctx: Ctx) -> t.List[Violation]:
